@@ -44,6 +44,7 @@ type Pred struct {
 	Text   string
 	Expr   ast.Expr
 	Pkg    string
+	Opaque bool
 }
 
 var specPreds = map[string]*Pred{}
@@ -175,7 +176,17 @@ func parseContractFile(path, pkgPath string) ([]*Contract, error) {
 			_ = saved
 			// register now; parse on flush through closure below
 			cc.Loops[nn] = append(cc.Loops[nn], cl)
-		case "pred":
+		case "pred", "opaque":
+			opaque := false
+			if word == "opaque" {
+				// opaque pred name(a, b) = expr: used through an uninterpreted symbol with a defining axiom
+				w2, r2 := splitWord(rest)
+				if w2 != "pred" {
+					return nil, fmt.Errorf("%s:%d: expected `opaque pred`", path, ln+1)
+				}
+				rest = r2
+				opaque = true
+			}
 			// pred name(a, b) = expr   (package-wide; continued lines allowed via pending mechanism)
 			eq := strings.Index(rest, "=")
 			op := strings.Index(rest, "(")
@@ -183,7 +194,7 @@ func parseContractFile(path, pkgPath string) ([]*Contract, error) {
 			if eq < 0 || op < 0 || cp < op || eq < cp {
 				return nil, fmt.Errorf("%s:%d: pred syntax: pred name(a, b) = expr", path, ln+1)
 			}
-			pd := &Pred{Name: strings.TrimSpace(rest[:op]), Text: strings.TrimSpace(rest[eq+1:]), Pkg: pkgPath}
+			pd := &Pred{Name: strings.TrimSpace(rest[:op]), Text: strings.TrimSpace(rest[eq+1:]), Pkg: pkgPath, Opaque: opaque}
 			for _, a := range strings.Split(rest[op+1:cp], ",") {
 				if a = strings.TrimSpace(a); a != "" {
 					pd.Params = append(pd.Params, strings.Fields(a)[0])
